@@ -352,7 +352,8 @@ fn round_path(r: &RoundRec) -> Vec<Option<u64>> {
     r.probes
         .iter()
         .filter_map(|s| match s {
-            ProbeStatus::Awaited(_) => Some(None),
+            // one position per probed hop: a probe that failed to send is an unknown hop, like an unanswered one
+            ProbeStatus::Awaited(_) | ProbeStatus::Failed(_) => Some(None),
             ProbeStatus::Complete(c) => Some(Some(id_of(c.host))),
             _ => None,
         })
